@@ -1,4 +1,5 @@
 import AslModel.Model.Dis.M87C
+import AslModel.Lemmas.DisRetrieve
 /-! Helper lemmas for the TLCS-870 part of C15 (`Model/Dis/M87C.lean`): operand-count facts decided over the complete case tables
 (`form1` over all 256 first bytes, `formMem` over all 256 second bytes, `formReg` over 8 registers × 256 second bytes), bytes
 returned by `RetrieveData`, and the length `raw` reports in terms of the two opcode bytes (`lenOf`). -/
@@ -107,10 +108,48 @@ theorem retrieveData_one (img : Image) (lower : Bool) (a : Nat) (ha : a ≠ 0x10
   cases retrieve img a 1 <;> simp
 
 /-- one byte at 0x10000 is fetched from address 0 -/
-theorem retrieveData_wrap (img : Image) (lower : Bool) (h00 : retrieve img 0 1 = none) :
+theorem retrieveData_wrap (img : Image) (lower : Bool) (h00 : ¬ inImage img 0) :
     (retrieveData img lower 0x10000 1).1 = none := by
   have hz : retrieve img 0x10000 0 = some [] := rfl
-  simp [retrieveData, retrieveDataF, hz, h00]
+  have h0 := retrieve_none_of_not_inImage img 0 1 (by omega) h00
+  simp [retrieveData, retrieveDataF, hz, h0]
+
+/-- the bytes of a request `RetrieveData` answers are bytes of the loaded image, as far as they lie below the end of the 64K address
+space (behind it `RetrieveData` continues at address 0) – all of them when address 0 is no byte of the image (the continuation then
+fails).  Since the repair of `RetrieveCodeFromChunkList`; before it a request running past the end of a chunk was completed from the
+same chunk again. -/
+theorem retrieveData_inImage (img : Image) (lower : Bool) (y n : Nat) (ds : List Nat) (e : List String)
+    (h : retrieveData img lower y n = (some ds, e)) :
+    ∀ k, k < n → (y + k < 0x10000 ∨ ¬ inImage img 0) → inImage img (y + k) := by
+  intro k hk hw
+  have hc : n ≠ 0 := by omega
+  unfold retrieveData at h
+  rw [show n + 2 = (n + 1) + 1 from rfl] at h
+  unfold retrieveDataF at h
+  simp only [hc, if_false] at h
+  generalize htr : (if y ≤ 0x10000 then min n (0x10000 - y) else n) = trans at h
+  cases hr : retrieve img y trans with
+  | none => simp [hr] at h
+  | some bs =>
+    have hin := (retrieve_some img y trans bs hr).2
+    by_cases hkt : k < trans
+    · exact hin k hkt
+    · exfalso
+      have hle : y ≤ 0x10000 := by
+        by_cases hle : y ≤ 0x10000
+        · exact hle
+        · simp [hle] at htr; omega
+      simp only [hle, if_true] at htr
+      have hlt : trans < n := by omega
+      have h0 : (y + trans) % 0x10000 = 0 := by omega
+      rcases hw with hw | hw
+      · omega
+      · simp only [hr, h0] at h
+        unfold retrieveDataF at h
+        have hc2 : n - trans ≠ 0 := by omega
+        simp only [hc2, if_false, Nat.zero_le, if_true] at h
+        have hn := retrieve_none_of_not_inImage img 0 (min (n - trans) (0x10000 - 0)) (by omega) hw
+        simp [hn] at h
 
 end AslModel.Dis.M87C
 
@@ -305,5 +344,115 @@ theorem raw_spec (img : Image) (lower : Bool) (syms : Syms) (a : Nat) :
             rw [hl] at h0
             revert h0
             cases formReg src (o3.getD 0 0) <;> simp [selLen] <;> omega
+
+end AslModel.Dis.M87C
+
+namespace AslModel.Dis.M87C
+open AslModel.Dis
+
+/-! ### every byte of a reported instruction was fetched -/
+
+/-- address `x` was part of a request `RetrieveData` answered -/
+def FetchedAt (img : Image) (lower : Bool) (x : Nat) : Prop :=
+  ∃ y n ds e, retrieveData img lower y n = (some ds, e) ∧ y ≤ x ∧ x < y + n
+
+theorem prefixed_covered (img : Image) (lower : Bool) (syms : Syms) (a op pl nData : Nat) (pfx what : String) (sel : Nat → RegSel)
+    (hpre : ∀ x, a ≤ x → x < a + pl → FetchedAt img lower x) :
+    ∀ x, a ≤ x → x < a + (prefixed img lower syms a op pl nData pfx what sel).info.len → FetchedAt img lower x := by
+  intro x hx1 hx2
+  unfold prefixed at hx2
+  cases h2 : retrieveData img lower (a + pl) 1 with
+  | mk o e =>
+    cases o with
+    | none => simp only [h2] at hx2; exact absurd hx2 (by simp; omega)
+    | some o2 =>
+      simp only [h2] at hx2
+      cases hs : sel (o2.getD 0 0) with
+      | unknown =>
+        simp only [hs] at hx2
+        have hl : (unknownPrefixed img lower syms a pl (o2.getD 0 0) (nData + 1) what).info.len = pl + 1 := by
+          unfold unknownPrefixed
+          simp only
+          split <;> rfl
+        rw [hl] at hx2
+        by_cases hxp : x < a + pl
+        · exact hpre x hx1 hxp
+        · exact ⟨a + pl, 1, o2, e, h2, by omega, by omega⟩
+      | ok f =>
+        simp only [hs] at hx2
+        cases h3 : retrieveData img lower (a + pl + 1) f.n with
+        | mk o3 e3 =>
+          cases o3 with
+          | none => simp only [h3] at hx2; exact absurd hx2 (by simp; omega)
+          | some data =>
+            simp only [h3, finish_len] at hx2
+            by_cases hxp : x < a + pl
+            · exact hpre x hx1 hxp
+            · by_cases hx0 : x = a + pl
+              · exact ⟨a + pl, 1, o2, e, h2, by omega, by omega⟩
+              · exact ⟨a + pl + 1, f.n, data, e3, h3, by omega, by omega⟩
+
+/-- every byte of the length `raw` reports for an instruction line lies in a request `RetrieveData` answered -/
+theorem raw_covered (img : Image) (lower : Bool) (syms : Syms) (a : Nat) :
+    ∀ x, a ≤ x → x < a + (raw img lower syms a false (-1)).info.len → FetchedAt img lower x := by
+  intro x hx1 hx2
+  unfold raw at hx2
+  cases h1 : retrieveData img lower a 1 with
+  | mk o e =>
+    cases o with
+    | none => simp only [h1] at hx2; exact absurd hx2 (by simp; omega)
+    | some ops =>
+      have hfirst : ∀ x, a ≤ x → x < a + 1 → FetchedAt img lower x := fun x p q => ⟨a, 1, ops, e, h1, p, q⟩
+      have hop : ops.getD 0 0 < 256 := getD_lt ops (retrieveData_lt img lower a 1 ops e h1) 0
+      simp only [h1, Bool.false_eq_true, if_false] at hx2
+      generalize ops.getD 0 0 = op at hop hx2
+      have hok := form1_ok op hop
+      unfold form1Ok at hok
+      cases hf : form1 op with
+      | unknown =>
+        simp only [hf] at hx2
+        have hl : (dataPart img lower syms a op false (-1)).info.len = 1 := by
+          simp [dataPart, retrieveData_zero]
+        rw [hl] at hx2
+        exact hfirst x hx1 hx2
+      | plain f =>
+        simp only [hf, Bool.and_eq_true, decide_eq_true_eq, Bool.or_eq_true, bne_iff_ne, ne_eq, beq_iff_eq] at hok hx2
+        by_cases hv : f.jump = .vec
+        · have hn : f.n = 0 := by
+            rcases hok.2 with h | h
+            · exact absurd hv h
+            · exact h
+          simp only [hv, if_true] at hx2
+          have hl : x < a + 1 := by
+            cases h2 : retrieveData img lower (0xffc0 + 2 * (op % 16)) 2 with
+            | mk o2 e2 =>
+              cases o2 <;> (simp only [h2, finish_len] at hx2; omega)
+          exact hfirst x hx1 hl
+        · simp only [hv, if_false] at hx2
+          cases h2 : retrieveData img lower (a + 1) f.n with
+          | mk o2 e2 =>
+            cases o2 with
+            | none => simp only [h2] at hx2; exact absurd hx2 (by simp; omega)
+            | some data =>
+              simp only [h2, finish_len] at hx2
+              by_cases hx0 : x = a
+              · exact hfirst x hx1 (by omega)
+              · exact ⟨a + 1, f.n, data, e2, h2, by omega, by omega⟩
+      | mem n k =>
+        simp only [hf] at hx2
+        cases h2 : retrieveData img lower (a + 1) n with
+        | mk o2 e2 =>
+          cases o2 with
+          | none => simp only [h2] at hx2; exact absurd hx2 (by simp; omega)
+          | some pd =>
+            simp only [h2] at hx2
+            refine prefixed_covered img lower syms a op (1 + n) (1 + n) _ "mem" memSel ?_ x hx1 hx2
+            intro z hz1 hz2
+            by_cases hz0 : z = a
+            · exact hfirst z hz1 (by omega)
+            · exact ⟨a + 1, n, pd, e2, h2, by omega, by omega⟩
+      | reg src =>
+        simp only [hf] at hx2
+        exact prefixed_covered img lower syms a op 1 1 "" "reg prefix" (formReg src) hfirst x hx1 hx2
 
 end AslModel.Dis.M87C
